@@ -7,7 +7,7 @@ patch=/verif/seeded/$id/patch.diff
 if [ -n "$(git -C /repo status --porcelain)" ]; then echo "/repo is not clean"; exit 2; fi
 git -C /repo apply $patch || exit 2
 out=/verif/seeded/$id/check_$prop.txt
-( cd /verif && ./check $prop --no-evidence "$@" ) > $out 2>&1
+( cd /verif && VERIF_MEM_GB=${VERIF_MEM_GB:-52} ./check $prop --no-evidence "$@" ) > $out 2>&1
 rc=$?
 git -C /repo checkout -- .
 echo "exit=$rc" >> $out
